@@ -58,6 +58,8 @@ type File struct {
 	Raw        bool     `json:"raw,omitempty"`
 	UnknownTop bool     `json:"unknownTop,omitempty"`
 	Garbage    bool     `json:"garbage,omitempty"` // non-raw: contains commands the parser ignores
+	NoCommit   bool     `json:"noCommit,omitempty"`  // Linux: tables are not closed by COMMIT lines (optional for the parser)
+	TablesRev  bool     `json:"tablesRev,omitempty"` // Linux: tables written in reverse order (mangle before filter)
 	SvcGroups  bool     `json:"svcGroups,omitempty"` // PAN-OS: every vsys with rules also defines a service-group its first rule uses
 	Conts      []Cont   `json:"conts"`
 	Anchors    []Anchor `json:"anchors"`
@@ -294,7 +296,12 @@ func renderLinux(f File) string {
 	if f.Garbage {
 		sb.WriteString("# comment\nip route add 10.77.0.0/16 via 10.1.2.3\n")
 	}
-	for ti, t := range linuxTables {
+	order := []int{0, 1}
+	if f.TablesRev {
+		order = []int{1, 0}
+	}
+	for _, ti := range order {
+		t := linuxTables[ti]
 		var cs []Cont
 		for _, c := range f.Conts {
 			if (c.Name/5)%2 == ti {
@@ -335,7 +342,9 @@ func renderLinux(f File) string {
 				}
 			}
 		}
-		sb.WriteString("COMMIT\n")
+		if !f.NoCommit {
+			sb.WriteString("COMMIT\n")
+		}
 	}
 	if f.UnknownTop {
 		sb.WriteString("unexpected foo\n")
@@ -1497,6 +1506,11 @@ func (g *gen) genConts(dev string) Case {
 		}
 		f.UnknownTop = raw && r.Chance(3) && len(f.Conts) > 0 && (dev == "linux" || len(f.Conts[0].Lines) > 0)
 		f.SvcGroups = dev == "panos" && r.Chance(30)
+		if dev == "linux" {
+			// hand-written files often omit COMMIT; tables come in any order
+			f.NoCommit = r.Chance(45)
+			f.TablesRev = r.Bool()
+		}
 	}
 	pc := 55
 	if dev == "linux" {
@@ -1589,6 +1603,14 @@ func corpus() []Case {
 	cs = append(cs, Case{Dev: "linux",
 		V4:  File{Present: true, Conts: []Cont{{Name: 0, Lines: []Line{L(12, "d", false)}}}},
 		Raw: File{Present: true, Raw: true, Conts: []Cont{{Name: 0, Lines: []Line{L(1, "d", false), L(5, "p", true)}}}}})
+	// the [APPEND] mark ends with its table, COMMIT or not: raw filter/INPUT has an APPEND rule, raw mangle/INPUT
+	// (written behind it, no COMMIT lines) an unmarked rule; both chains exist in Netspoc's file
+	for _, rev := range []bool{false, true} {
+		cs = append(cs, Case{Dev: "linux",
+			V4: File{Present: true, Conts: []Cont{{Name: 0, Lines: []Line{L(10, "p", false), L(11, "d", false)}}, {Name: 5, Lines: []Line{L(12, "p", false), L(13, "d", false)}}}},
+			Raw: File{Present: true, Raw: true, NoCommit: true, TablesRev: rev, Conts: []Cont{
+				{Name: 0, Lines: []Line{L(1, "p", !rev)}}, {Name: 5, Lines: []Line{L(2, "p", rev)}}}}})
+	}
 	// PAN-OS, NSX
 	cs = append(cs, Case{Dev: "panos",
 		V4:  File{Present: true, Conts: []Cont{{Name: 1, Lines: []Line{L(10, "p", false), L(11, "d", false)}}}},
@@ -1744,6 +1766,39 @@ func runC18(ctx *Ctx) *Result {
 		}
 		if nApp > 0 && nNon > 0 {
 			res.Count("raw:append+prepend")
+		}
+		if c.Dev == "linux" && c.Raw.Present {
+			tabs := map[int]bool{}
+			appTab, laterNon := -1, false
+			ord := []int{0, 1}
+			if c.Raw.TablesRev {
+				ord = []int{1, 0}
+			}
+			for _, ti := range ord {
+				for _, ct := range c.Raw.Conts {
+					if (ct.Name/5)%2 != ti {
+						continue
+					}
+					tabs[ti] = true
+					for _, l := range ct.Lines {
+						if l.App && appTab < 0 {
+							appTab = ti
+						}
+						if !l.App && appTab >= 0 && appTab != ti && !ct.User && (contOf(c.V4, ct.Name).ok || contOf(c.V6, ct.Name).ok) {
+							laterNon = true
+						}
+					}
+				}
+			}
+			if len(tabs) >= 2 {
+				res.Count("linux:raw-two-tables")
+				if c.Raw.NoCommit {
+					res.Count("linux:raw-two-tables-no-commit")
+				}
+				if c.Raw.NoCommit && laterNon {
+					res.Count("linux:append-in-earlier-table-unmarked-rule-in-later-table-no-commit")
+				}
+			}
 		}
 		if !c.V4.Present {
 			res.Count("v4:absent")
